@@ -29,7 +29,7 @@ import operator
 import pickle
 
 from .. import core
-from ..lit_util import load_local_findings
+from ..lit_util import load_local_findings, Watchdog
 
 PID = "C21"
 
@@ -591,7 +591,11 @@ def run(ck):
     set_hint(ws, hint)
     n_direct = n_tpl = 0
     before = len(ck.violations) + sum(h["count"] for h in ck.known_hits.values())
+    dog = Watchdog(ck, 30)
     for i, cs in enumerate(cases):
+        dog.arm(cs, f"{cs['base']}{'+logging' if cs['logging'] else ''} from {cs['origin']}: operation {cs['op']}",
+                {"kind": "undefined-op", "op": cs["op"], "base": cs["base"], "got": "hang", "expected": cs["res"]["kind"],
+                 "logging": cs["logging"]})
         if len(ck.violations) > 200:
             ck.extra["stopped_early"] = f"more than 200 violations after {i} of {len(cases)} cases"
             break
@@ -607,6 +611,7 @@ def run(ck):
             n_tpl += run_templates(ck, W, cs, True, entry="render")
         if i % 4001 == 0:
             ck.sample({k: cs[k] for k in ("base", "logging", "origin", "path", "op", "side", "other")} | {"documented": cs["res"]["kind"] + ":" + cs["res"]["val"]})
+    dog.disarm()
     ck.traces += n_direct + n_tpl
     ck.evaluations += n_direct + n_tpl
     ck.extra["cases_from_tlc"] = len(cases)
